@@ -92,6 +92,7 @@ POL5 = ["masked", "zigzag", "mostly_masked", "nearest", "random"]
 class Adapter(EnvAdapter):
     name = "CVRP"
     props = ("C01", "C03", "C04", "C05", "C06", "C08", "C09", "C10", "C11", "C12")
+    gen_heavy = {'u6_c6_d4_sparse': (60, 300), 'u3_c3_d3_dense': (60, 300)}
 
     def configs(self, tier):
         if tier == "quick":
